@@ -48,6 +48,8 @@ pub enum Step {
     /// something going on right before the request: 0 layer key tapped, 1 one-shot tapped, 2 macro started
     Busy(u8),
     Probe,
+    /// tap (lrld-num 4) with three files on the command line
+    ReloadNumOutOfRange,
 }
 
 #[derive(Clone, Debug, PartialEq, Eq, Hash)]
@@ -67,8 +69,10 @@ fn valid_text(v: u8) -> String {
     // an override of the output chord of key k; odd variants release it on activation
     let z = format!("{z}(defoverrides (lsft {o1}) ({o3}))\n");
     let opt = if v % 2 == 1 { " override-release-on-activation yes" } else { "" };
+    // dynamic macros: the recording limit differs between the variants
+    let limit = 3 + v;
     format!(
-        "(defcfg log-layer-changes no{opt})\n(defsrc a b c d e f g h i j k l q r)\n{z}(deflayer base{v} {o1} (layer-while-held nav) (one-shot 60 lsft) lrld lrld-next lrld-prev (lrld-num 1) (lrld-num 2) (lrld-num 3) (macro {o3} 20 {o3}) S-{o1} (layer-switch nav) _ _)\n(deflayer nav {o2} _ _ lrld lrld-next lrld-prev (lrld-num 1) (lrld-num 2) (lrld-num 3) _ _ (layer-switch base{v}) _ _)\n"
+        "(defcfg log-layer-changes no{opt} dynamic-macro-max-presses {limit})\n(defsrc a b c d e f g h i j k l q r m n o p)\n{z}(deflayer base{v} {o1} (layer-while-held nav) (one-shot 60 lsft) lrld lrld-next lrld-prev (lrld-num 1) (lrld-num 2) (lrld-num 3) (macro {o3} 20 {o3}) S-{o1} (layer-switch nav) _ _ (lrld-num 4) (dynamic-macro-record 0) dynamic-macro-record-stop (dynamic-macro-play 0))\n(deflayer nav {o2} _ _ lrld lrld-next lrld-prev (lrld-num 1) (lrld-num 2) (lrld-num 3) _ _ (layer-switch base{v}) _ _ _ _ _ _)\n"
     )
 }
 const OUTS: [(&str, &str, &str); 4] = [("x", "1", "m"), ("y", "2", "n"), ("z", "3", "o"), ("w", "4", "p")];
@@ -111,6 +115,7 @@ impl Case for LCase {
                 Step::ReloadOnOtherLayer(how, k) => json!({"reload-on-other-layer": [how, k]}),
                 Step::Busy(k) => json!({"busy": k}),
                 Step::Probe => json!("probe"),
+                Step::ReloadNumOutOfRange => json!("reload-num-out-of-range"),
             }).collect::<Vec<_>>(),
             "valid_config_family": valid_text(0)})
     }
@@ -121,6 +126,7 @@ impl Case for LCase {
                 steps.push(match t {
                     "reload-twice" => Step::ReloadTwice,
                     "probe" => Step::Probe,
+                    "reload-num-out-of-range" => Step::ReloadNumOutOfRange,
                     _ => return None,
                 });
                 continue;
@@ -270,21 +276,31 @@ fn reload_notes(notes: &[String]) -> Vec<String> {
     out
 }
 
-/// The probe: q+r together (a zippychord chord in variants 4-7); tap a; hold b (layer) and tap a; tap k (output chord, overridden); hold k and tap a (tells override-release-on-activation). Returns the key presses seen.
+/// The probe (PROBE): a key held with OS repeats, a dynamic macro of seven taps recorded and played (the recording limit differs between the variants); q+r together (a zippychord chord in variants 4-7); tap a; hold b (layer) and tap a; tap k (output chord, overridden); hold k and tap a (tells override-release-on-activation). Returns the key presses seen.
+/// (key, 0 release / 1 press / 2 OS repeat)
+const PROBE: [(&str, u8); 38] = [
+    ("q", 1), ("r", 1), ("q", 0), ("r", 0),
+    // a key held with OS repeats
+    ("a", 1), ("a", 2), ("a", 2), ("a", 0),
+    ("b", 1), ("a", 1), ("a", 0), ("b", 0),
+    ("k", 1), ("k", 0), ("k", 1), ("a", 1), ("a", 0), ("k", 0),
+    // a dynamic macro of seven taps recorded and played: the recording limit shows
+    ("n", 1), ("n", 0),
+    ("a", 1), ("a", 0), ("a", 1), ("a", 0), ("a", 1), ("a", 0), ("a", 1), ("a", 0), ("a", 1), ("a", 0), ("a", 1), ("a", 0), ("a", 1), ("a", 0),
+    ("o", 1), ("o", 0), ("p", 1), ("p", 0),
+];
 fn probe(l: &mut Live) -> Vec<String> {
     l.drain();
-    l.send("q", true);
-    l.send("r", true);
-    l.send("q", false);
-    l.send("r", false);
-    l.tap("a");
-    l.send("b", true);
-    l.tap("a");
-    l.send("b", false);
-    l.tap("k");
-    l.send("k", true);
-    l.tap("a");
-    l.send("k", false);
+    for (key, kind) in PROBE.iter() {
+        let code = OsCode::from_u16(code_of(key)).expect("key");
+        let value = match kind {
+            0 => KeyValue::Release,
+            1 => KeyValue::Press,
+            _ => KeyValue::Repeat,
+        };
+        let _ = l.tx.send(KeyEvent { code, value });
+        std::thread::sleep(std::time::Duration::from_millis(8 * l.mult));
+    }
     // until no more output arrives for 25 ms (at most 1 s)
     let mut all = vec![];
     let mut quiet = 0;
@@ -322,15 +338,17 @@ fn fresh_probe(v: u8) -> Vec<String> {
 fn fresh_probe_compute(v: u8) -> Vec<String> {
     let files: std::collections::HashMap<String, String> = (0u8..4).map(zippy_file).collect();
     let mut s = Sim::new_with_files(&valid_text(v), files).expect("family config parses");
-    for (key, press) in [("q", true), ("r", true), ("q", false), ("r", false), ("a", true), ("a", false), ("b", true), ("a", true), ("a", false), ("b", false), ("k", true), ("k", false), ("k", true), ("a", true), ("a", false), ("k", false)] {
-        if press {
-            s.press(code_of(key));
-        } else {
-            s.release(code_of(key));
+    for (key, kind) in PROBE.iter() {
+        match kind {
+            0 => s.release(code_of(key)),
+            1 => s.press(code_of(key)),
+            _ => {
+                s.repeat(code_of(key));
+            }
         }
         s.tick_n(8);
     }
-    s.tick_n(25);
+    s.tick_n(400);
     seq(&s.outs)
 }
 
@@ -558,6 +576,28 @@ fn judge_once(c: &LCase, mult: u64) -> Verdict {
                 l.wait(30);
                 v.classes.push("requested-on-other-layer");
             }
+            Step::ReloadNumOutOfRange => {
+                // a file number beyond the command line: what happens is not stated - nothing,
+                // or a reload of the current file; either way kanata keeps running, and the
+                // notifications tell which it was
+                l.notifications();
+                l.drain();
+                l.tap("m");
+                l.wait(40);
+                let notes = reload_notes(&l.notifications());
+                log.push(format!("reload (lrld-num 4) -> {notes:?}"));
+                if !notes.is_empty() {
+                    match files[idx] {
+                        Content::Valid(nv) if notes == vec![format!("reload:cfg{idx}.kbd"), format!("layer:base{}", nv % 4)] => {
+                            active = nv;
+                        }
+                        _ => {
+                            fail = Some(("reload:notifications-differ".into(), format!("lrld-num 4 with three files, current file {idx} ({:?}): got {notes:?}", files[idx])));
+                        }
+                    }
+                }
+                v.classes.push("lrld-num-out-of-range");
+            }
             Step::ReloadTwice => {
                 let (ni, res) = request(0, idx, &files);
                 l.notifications();
@@ -625,7 +665,7 @@ impl TypedProp for C15 {
     fn info(&self) -> PropInfo {
         PropInfo {
             level: "exploration",
-            rule: "three configuration files on the command line; contents from a family of eight valid configurations (same defsrc, four sets of outputs and first-layer names, each with and without a zippychord dictionary of one chord, an override of the output chord, override-release-on-activation on in every second one; layer-while-held, one-shot, a macro, an output chord, lrld / lrld-next / lrld-prev / lrld-num 1-3 keys) or broken syntax / rejected by the parser / missing / a directory. Histories of 2-9 steps: rewrite a file, request a reload (plain, next, prev, num), request it while a key's output is held down (and probe notifications before the release), request it twice back-to-back, request it while another layer is active (layer-while-held key held, or after a layer-switch), make kanata busy right before (layer tap, one-shot, running macro), probe. Run on the real Kanata::start_processing_loop thread with real-time events 8 ms apart and simulated output. Oracle: a reference model of the active content (unchanged by a failed reload, replaced by a successful one, not before the held key's output is released); every probe (two keys pressed together - the dictionary chord where there is one -, tap, layer-held tap, overridden output chord, a tap while it is held) must equal what a freshly started deterministic instance of the active content answers; a successful reload sends exactly ConfigFileReload(file) then LayerChange(first layer), a failed one nothing; nothing stays down; no panic in the processing thread. Non-trivial: a failed reload or a request while a key is held occurs. Distinct: hash of the case.".into(),
+            rule: "three configuration files on the command line; contents from a family of eight valid configurations (same defsrc, four sets of outputs and first-layer names, each with and without a zippychord dictionary of one chord, an override of the output chord, override-release-on-activation on in every second one; layer-while-held, one-shot, a macro, an output chord, lrld / lrld-next / lrld-prev / lrld-num 1-4 keys, dynamic-macro record / stop / play keys and a recording limit that differs between the variants) or broken syntax / rejected by the parser / missing / a directory. Histories of 2-9 steps: rewrite a file, request a reload (plain, next, prev, num), request it while a key's output is held down (and probe notifications before the release), request it twice back-to-back, request file number 4 of 3 (kanata must keep running; whether the current file is reloaded is read from the notifications), request it while another layer is active (layer-while-held key held, or after a layer-switch), make kanata busy right before (layer tap, one-shot, running macro), probe. Run on the real Kanata::start_processing_loop thread with real-time events 8 ms apart and simulated output. Oracle: a reference model of the active content (unchanged by a failed reload, replaced by a successful one, not before the held key's output is released); every probe (two keys pressed together - the dictionary chord where there is one -, tap, layer-held tap, overridden output chord, a tap while it is held) must equal what a freshly started deterministic instance of the active content answers; a successful reload sends exactly ConfigFileReload(file) then LayerChange(first layer), a failed one nothing; nothing stays down; no panic in the processing thread. Non-trivial: a failed reload or a request while a key is held occurs. Distinct: hash of the case.".into(),
             assumptions: vec![
                 "only time-insensitive behaviour is compared (real-time thread): sequences of key events, not their times".into(),
                 "after a failed lrld-next / lrld-prev the following requests are absolute (lrld-num): the statement does not say whether the file index advanced".into(),
@@ -642,7 +682,7 @@ impl TypedProp for C15 {
             },
             exhaustive: false,
             distinct_by_construction: false,
-            required_classes: vec!["reload-succeeded", "failed:broken-syntax", "failed:rejected", "failed:missing", "failed:unreadable", "requested-while-key-held", "requested-on-other-layer", "back-to-back", "dictionary-to-no-dictionary", "lrld", "lrld-next", "lrld-prev", "lrld-num"],
+            required_classes: vec!["reload-succeeded", "failed:broken-syntax", "failed:rejected", "failed:missing", "failed:unreadable", "requested-while-key-held", "requested-on-other-layer", "back-to-back", "dictionary-to-no-dictionary", "lrld-num-out-of-range", "lrld", "lrld-next", "lrld-prev", "lrld-num"],
             hang_secs: 120,
         }
     }
@@ -664,6 +704,7 @@ impl TypedProp for C15 {
             1 => Just(Step::ReloadTwice),
             2 => (0u8..2, 0u8..6).prop_map(|(h, k)| Step::ReloadOnOtherLayer(h, k)),
             1 => (0u8..3).prop_map(Step::Busy),
+            1 => Just(Step::ReloadNumOutOfRange),
             2 => Just(Step::Probe),
         ];
         ((0u8..8), prop::collection::vec(content, 2..=2), prop::collection::vec(step, 2..10))
